@@ -396,7 +396,8 @@ func buildPersistMachine(d persistMachine) (*bondmachine.Bondmachine, bool, erro
 		w := strings.Repeat("0", a.Max_word())
 		m.Program = procbuilder.Program{Slocs: []string{w, w}}
 	}
-	m.Data = procbuilder.Data{Vars: []string{"00000001", "00000010"}}
+	// (more data words than program lines in the machines whose program is two words)
+	m.Data = procbuilder.Data{Vars: []string{"00000001", "00000010", "00000100", "00001000", "00010000"}}
 	bm := newBM(8)
 	bm.Domains = append(bm.Domains, m)
 	bm.Add_input()
@@ -541,6 +542,13 @@ func runC11(r *evid.Run) {
 	states += pres.Distinct
 	transitions += pres.Generated
 	var machines, simulated, verilogCompared, freshLoads int64
+	type againItem struct {
+		bm    *bondmachine.Bondmachine
+		label string
+		d     persistMachine
+		saved string
+	}
+	var again []againItem
 	err = readNDJSON(rowPath, func(b []byte) error {
 		var d persistMachine
 		if err := json.Unmarshal(b, &d); err != nil {
@@ -641,6 +649,9 @@ func runC11(r *evid.Run) {
 			}
 			simulated++
 		}
+		if len(dynNamesOf(d.Dom.Ops)) > 0 {
+			again = append(again, againItem{bm, label, d, string(saved)})
+		}
 		r.Distinct("cat|" + string(saved))
 		if machines%29 == 1 {
 			r.Sample(map[string]interface{}{"machine": d, "saved_bytes": len(saved)})
@@ -651,6 +662,34 @@ func runC11(r *evid.Run) {
 		r.Inconclusive("rows: %v", err)
 		return
 	}
+	// the machines with dynamically named opcodes once more, now that the registry holds the names of the
+	// whole catalogue (twins that differ in the case of one letter among them)
+	var reloadedLate int64
+	for _, it := range again {
+		re, _, err := saveLoad(it.bm)
+		ctx := map[string]interface{}{"machine": it.d}
+		if err != nil {
+			r.Violate("saveload-error", fmt.Sprintf("save/load of a machine (%s) fails once the registry has grown: %v", it.label, err), ctx)
+			continue
+		}
+		re.Init()
+		reloadedLate++
+		// (the original object has been through Verilog generation by now, which leaves marks on it: the
+		// saved forms are compared)
+		resaved, perr := func() (b []byte, err error) {
+			defer func() {
+				if e := recover(); e != nil {
+					err = fmt.Errorf("panic: %v", e)
+				}
+			}()
+			return json.Marshal(re.Jsoner())
+		}()
+		if perr != nil || string(resaved) != it.saved {
+			ctx["saved_first"], ctx["saved_after_late_reload"] = it.saved, string(resaved)
+			r.Violate("reload-differs:after-registry-grew", fmt.Sprintf("the machine reloaded after the opcode registry has grown is saved differently from the original (%s) %v", it.label, perr), ctx)
+		}
+	}
+	r.Set("catalogue_reloads_after_registry_growth", reloadedLate)
 	// ---- 3. the load -> save path of the command line tool --------------------------------------------
 	toolBin, err := buildTool(scratch, "bondmachine")
 	if err != nil {
@@ -729,4 +768,18 @@ func runC11(r *evid.Run) {
 	r.Set("catalogue_simulated", simulated)
 	r.Set("catalogue_fresh_process_loads", freshLoads)
 	r.Set("evaluations", topoStates+machines+freshLoads)
+}
+
+// dynNamesOf returns the opcode names of a list that are created on demand (not in the static table).
+func dynNamesOf(ops []string) []string {
+	var out []string
+	for _, n := range ops {
+		for _, pre := range []string{"addfps", "addfxps", "calla", "callo", "divfps", "multfps", "multfxps", "pull", "push", "ret", "rsets"} {
+			if strings.HasPrefix(n, pre) && n != "ret" {
+				out = append(out, n)
+				break
+			}
+		}
+	}
+	return out
 }
